@@ -234,7 +234,7 @@ theorem MCx_lawful (σ : String → ℂ) : Lawful (MCx σ) where
   app_odd := by
     intro h hh v
     simp only [oddHeads, List.mem_cons, List.not_mem_nil, or_false] at hh
-    rcases hh with rfl | rfl | rfl | rfl | rfl | rfl | rfl | rfl | rfl | rfl | rfl <;>
+    rcases hh with rfl | rfl | rfl | rfl | rfl | rfl | rfl | rfl | rfl | rfl | rfl | rfl <;>
       simp [MCx, Complex.sin_neg, Complex.cos_neg, Complex.tan_neg, Complex.sinh_neg,
         Complex.cosh_neg, Complex.tanh_neg, neg_div, div_neg]
   app_even := by
